@@ -166,6 +166,32 @@ class Report:
         return path
 
 
+class KaniCross:
+    """secondary engine (E2): Kani/CBMC on the real compiled code of leaf predicates, run beside the MIR executor in the thorough tier.
+    A failed or unavailable harness makes the run inconclusive; it never produces a VIOLATION on its own (no property-level oracle)."""
+
+    def __init__(self, rep, harnesses, atoms=False):
+        self.rep = rep; self.harnesses = harnesses; self.p = None
+        if rep.tier != 'thorough' and not os.environ.get('VERIF_KANI'):
+            return
+        import subprocess
+        cmd = [sys.executable, os.path.join(VERIF, 'tools', 'kani_check.py')] + (['--atoms'] if atoms else []) + list(harnesses)
+        self.p = subprocess.Popen(cmd, stdout=subprocess.PIPE, stderr=subprocess.DEVNULL, text=True)
+
+    def collect(self):
+        if self.p is None:
+            return
+        out, _ = self.p.communicate()
+        try:
+            res = json.loads(out.strip().splitlines()[-1])
+        except Exception:
+            res = {'error': 'no result from kani_check.py'}
+        self.rep.extra['kani_secondary_engine'] = {'tool': 'kani 0.68.0 / CBMC 6.11 (cadical)', 'harness_file': 'kani/harness.rs', 'results': res}
+        for h in self.harnesses:
+            if res.get(h) != 'SUCCESSFUL':
+                self.rep.inconclusive.append('Kani harness %s: %s' % (h, res.get(h, res.get('error', 'missing'))))
+
+
 def stats_dict(st):
     return {'xresults': list(getattr(st, 'xresults', [])), 'paths': st.paths, 'queries': st.queries, 'sat': st.sat, 'unsat': st.unsat, 'unknown': st.unknown,
             'solver_s': st.solver_s, 'steps': st.steps, 'fns': dict(st.fns), 'models': sorted(st.models)}
